@@ -194,7 +194,8 @@ theorem arg_conversion_table (v : V) :
     simp [ArgTy.asks, hw.2.2, hf]
 
 /-- **builtin_mono_of_sig**: a call of a registered builtin — conversion layer from its extracted
-    signature, then its body, which consults the mode at most by asking the helpers — only adds
+    signature, then its body (a hand model of its helper questions, nested calls included, or a
+    mode-independent function when its source never reaches the mode) — only adds
     errors with strictness; and two modes under which it succeeds return the same value. -/
 theorem builtin_mono_of_sig (ops : Ops) (kind name : String) (args : List V) (c : Comp V)
     (hc : callBuiltin ops kind name args = some c) (m m' : Mode) :
@@ -204,6 +205,26 @@ theorem builtin_mono_of_sig (ops : Ops) (kind name : String) (args : List V) (c 
   have _ := hc
   exact ⟨fun h y => Comp.run_mono c m m' h y, fun y y' => Comp.run_agree c m m' y y',
          fun e y => Comp.run_err_of_ok c m m' e y⟩
+
+/-- **builtin_failing_modes_upward_closed**: the modes in which a call of a registered builtin
+    fails at a helper question — in its argument conversion, in the hand-modelled questions of its
+    body, or in a nested filter / test call — form an upward closed set, and in each of them the call
+    is an error (this is what the check compares with the engine for every call of the `call` /
+    `sweep` streams). -/
+theorem builtin_failing_modes_upward_closed (ops : Ops) (kind name : String) (args : List V) (c : Comp V)
+    (_hc : callBuiltin ops kind name args = some c) (m m' : Mode) (h : m' ≤ m) :
+    (c.failsAtAsk m' = true → c.failsAtAsk m = true) ∧ (c.failsAtAsk m = true → ∃ e, c.run m = .error e) :=
+  ⟨Comp.failsAtAsk_mono c m m' h, Comp.run_of_failsAtAsk c m⟩
+
+/-- `[1, u]|map('upper')`: the nested `upper` asks for its undefined item — fails at a question under
+    SemiStrict and Strict, not under Lenient; `u|sort` asks `try_iter` -/
+example :
+    (match callBuiltin Ops.convOnly "filter" "map" [.seq [.int 1, .undef], .str "upper"] with
+      | some c => Mode.all.map c.failsAtAsk | none => []) = [false, false, true, true] ∧
+    (match callBuiltin Ops.convOnly "filter" "sort" [.undef] with
+      | some c => Mode.all.map c.failsAtAsk | none => []) = [false, false, true, true] ∧
+    (match callBuiltin Ops.convOnly "filter" "select" [.seq [.int 1], .str "in", .undef] with
+      | some c => Mode.all.map c.failsAtAsk | none => []) = [false, false, true, true] := by decide
 
 /-- **pure_builtin_independent_after_conversion**: for a builtin whose source never reaches the
     mode (its body is a function of the arguments), all modes under which the argument conversion
@@ -395,6 +416,21 @@ example :
     (Prog.single code).inFragment = true ∧
     (runVm Ops.exec (Prog.single code) .lenient 50 {}).map St.output = .ok "[]1" ∧
     (runVm Ops.exec (Prog.single code) .semiStrict 50 {}).map St.output = .error .undefinedError := by
+  refine ⟨?_, ?_, ?_⟩ <;> decide
+
+/-- template inheritance inside the machine: `{% extends 'base' %}{% block blk %}<{{ super() }}>{% endblock %}` with
+    `base` = `B{% block blk %}[{{ u }}]{% endblock %}E`: the parent block prints an undefined, so the child renders
+    under Lenient and fails under Strict -/
+example :
+    let P : Prog := {
+      codes := #[#[.loadConst (.str "base"), .loadBlocks, .callBlock "blk"],
+                 #[.emitRaw "<", .fastSuper, .emitRaw ">"],
+                 #[.emitRaw "B", .callBlock "blk", .emitRaw "E"],
+                 #[.emitRaw "[", .lookup "u", .emit, .emitRaw "]"]],
+      templates := [("base", 2)], blocks := [("blk", 1)], parentBlocks := [("base", [("blk", 3)])] }
+    P.inFragment = true ∧
+    (runVm Ops.exec P .lenient 50 {}).map St.output = .ok "B<[]>E" ∧
+    (runVm Ops.exec P .strict 50 {}).map St.output = .error (.other "BadInclude or EvalBlock") := by
   refine ⟨?_, ?_, ?_⟩ <;> decide
 
 /-! ## the documented site matrix on the modelled VM sites -/
